@@ -274,7 +274,7 @@ fn enc_case(rng: &mut Rng, ctx: &mut Ctx) {
     let items: Vec<Vec<u8>> = sizes.iter().map(|&s| rng.payload(s)).collect();
     let src_class = rng.below(4);
     // unlimited run to learn the on-the-wire lengths tonic produces
-    let e0 = encode_run(RawEncoder { bs: (bs, yt), piecewise: false }, source_steps(rng, &items, 0), enc, role, None, 0);
+    let e0 = encode_run(RawEncoder { bs: (bs, yt), piecewise: false, chained: false }, source_steps(rng, &items, 0), enc, role, None, 0);
     let wire0 = e0.wire();
     let (frames0, tail0) = ref_parse(&wire0);
     if tail0 != Tail::Clean || frames0.len() != n {
@@ -298,7 +298,7 @@ fn enc_case(rng: &mut Rng, ctx: &mut Ctx) {
     if src_class == 0 && matches!(first_over, Some(i) if i > 0) {
         ctx.count("enc.batched_with_oversized");
     }
-    let e1 = encode_run(RawEncoder { bs: (bs, yt), piecewise: false }, source_steps(rng, &items, src_class), enc, role, Some(limit), 3);
+    let e1 = encode_run(RawEncoder { bs: (bs, yt), piecewise: false, chained: false }, source_steps(rng, &items, src_class), enc, role, Some(limit), 3);
     if e1.stalled || e1.budget {
         ctx.violation("hang", "encoder did not terminate".into());
         return;
@@ -405,7 +405,7 @@ fn enc_4g(ctx: &mut Ctx) {
     for role in [Role::Server, Role::Client] {
         let big = vec![0u8; (u32::MAX as usize) + 1];
         let steps = vec![SStep::Item(vec![1u8, 2, 3]), SStep::Item(big)];
-        let out = encode_run(RawEncoder { bs: (8192, 1 << 40), piecewise: false }, steps, Enc::Identity, role, None, 1);
+        let out = encode_run(RawEncoder { bs: (8192, 1 << 40), piecewise: false, chained: false }, steps, Enc::Identity, role, None, 1);
         let mut data = Vec::new();
         let mut status = None;
         for f in &out.frames {
